@@ -85,8 +85,16 @@ func (o *Operation) Equal(o2 *Operation) error {
 	return nil
 }
 
+// shortID returns at most the first five characters of an identifier
+func shortID(id string) string {
+	if len(id) > 5 {
+		return id[:5]
+	}
+	return id
+}
+
 func (o *Operation) Filename() (filename string) {
-	filename = fmt.Sprintf("dkg_id_%s", o.DKGIdentifier[:5])
+	filename = fmt.Sprintf("dkg_id_%s", shortID(o.DKGIdentifier))
 
 	if o.IsSigningState() {
 		var payload responses.SigningPartialSignsParticipantInvitationsResponse
@@ -101,7 +109,7 @@ func (o *Operation) Filename() (filename string) {
 		filename,
 		getStepNumber(o.Type),
 		getShortOperationDescription(o.Type),
-		o.ID[:5],
+		shortID(o.ID),
 	)
 }
 
